@@ -3,7 +3,7 @@
 # Confirms, in a scratch worktree of /repo HEAD at the path the seed's demo_cmd expects: demo passes on the clean tree,
 # patch applies and builds, demo fails with the patch, goom's baseline suite still passes 45/45 with the patch.
 D=$1; S=$(basename $D); P=$(echo $S | cut -d- -f1)
-WT=/tmp/seed/$P
+WT=${SEED_WT_BASE:-/tmp/seed}/$P
 export GOFLAGS=-mod=mod GOPROXY=off GOSUMDB=off GOTOOLCHAIN=local
 git -C /repo worktree remove --force $WT >/dev/null 2>&1; git -C /repo worktree add --detach $WT HEAD >/dev/null 2>&1 || { echo "$S worktree failed"; exit 9; }
 CMD=$(python3 -c "import json;print(json.load(open('$D/meta.json')).get('demo_cmd',''))" | sed "s#<goom-root>#$WT#g; s#<goom>#$WT#g")
